@@ -469,6 +469,7 @@ func genC09(c *Ctx) {
 		fam(c09PGPFamily(c, v, per))
 	}
 	fam(c09CertFamily(c))
+	fam(c09JWTFamily(c))
 	fam(c09ExplicitECFamily(c))
 	fam(c09SSHFamily(c))
 	fam(c09B64Family(c))
